@@ -41,6 +41,33 @@ RULES = {
 }
 
 
+def fixed_part_reads(ob, data, hsize=7):
+    """The decoded content header's class id, weight and body size are the
+    unsigned big-endian reads of payload octets 0-1, 2-3 and 4-11.
+    -> (ok, {field: what is read})"""
+    rd = {}
+    for name in ('class_id', 'weight', 'body_size'):
+        rd[name] = L.parse_unpack_read(ob.attrs.get(name), data)
+    ok_fixed = all(rd.values())
+    detail = {}
+    if ok_fixed:
+        want = {'class_id': (0, 2), 'weight': (2, 2), 'body_size': (4, 8)}
+        for name, (woff, wsize) in want.items():
+            fm, idx, lo, hi = rd[name]
+            off, fld = [x for x in T.fmt(fm).offsets()
+                        if x[1][3] != 'pad'][idx]
+            okk = T.sub(T.add(lo, off), hsize + woff) == 0 and \
+                fld[1] == wsize and fld[2] is False and \
+                T.fmt(fm).order == 'big'
+            detail[name] = '%r field %d at %s' % (fm, idx,
+                                                  T.show(T.add(lo, off)))
+            ok_fixed = ok_fixed and okk
+    else:
+        detail = {n: 'not a read of the payload' for n, r in rd.items()
+                  if not r}
+    return ok_fixed, detail
+
+
 def run(chk, ctx):
     for r, t in RULES.items():
         chk.rule(r, t)
@@ -192,27 +219,7 @@ def run(chk, ctx):
     it, data = d['interp'], d['data']
     site_u = 'pamqp/header.py (ContentHeader.unmarshal) / pamqp/base.py'
     kn = o.state.kn
-    # fixed part reads
-    rd = {}
-    for name in ('class_id', 'weight', 'body_size'):
-        rd[name] = L.parse_unpack_read(ob.attrs.get(name), data)
-    ok_fixed = all(rd.values())
-    detail = {}
-    if ok_fixed:
-        f = T.fmt(rd['body_size'][0])
-        offs = [x for x in f.offsets() if x[1][3] != 'pad']
-        want = {'class_id': (0, 2), 'weight': (2, 2), 'body_size': (4, 8)}
-        for name, (woff, wsize) in want.items():
-            fm, idx, lo, hi = rd[name]
-            off, fld = [x for x in T.fmt(fm).offsets()
-                        if x[1][3] != 'pad'][idx]
-            okk = T.sub(T.add(lo, off), hsize + woff) == 0 and \
-                fld[1] == wsize and fld[2] is False and \
-                T.fmt(fm).order == 'big'
-            detail[name] = '%r field %d at %s' % (fm, idx,
-                                                  T.show(T.add(lo, off)))
-            ok_fixed = ok_fixed and okk
-        del offs
+    ok_fixed, detail = fixed_part_reads(ob, data, hsize)
     chk.ob('C02.H', 'unmarshal fixed part', ok_fixed,
            'reads %r' % (detail,), site=site_u)
     # flag reader
